@@ -330,6 +330,25 @@ Section RES.
       | [] => Ok (Single {| p_nodal := []; p_elemental := [] |})
       | f :: _ => do p <- parse_res n_nodes n_elems types (snd f); Ok (Single p)
       end.
+
+  (* FrontISTRData.read_files(time_series=True) handed the result files in ANY
+     order (FEMData.read_files called directly): no sorting happens here --
+     settings['time_steps'] is the list of numeric suffixes in the given order
+     and slice k of every series is the reading of the k-th file given.
+     read_directory is this function after select_steps (C02_read_dir_sorts_then_reads). *)
+  Definition read_files_series (n_nodes n_elems : nat) (types : list (str * list Z))
+             (files : table str) : result dir_result :=
+    match files with
+    | [] => Ok (Series [] [] [])
+    | _ =>
+        if (Nat.eqb (length files) 1) && negb series_single_ok
+        then Err "AttributeError: 'str' object has no attribute 'find_match'"
+        else
+          do ps <- mapM (fun f => parse_res n_nodes n_elems types (snd f)) files;
+          do nd <- stack_steps (map p_nodal ps);
+          do ed <- stack_steps (map elemental_tables ps);
+          Ok (Series (map fst files) nd ed)
+    end.
 End RES.
 Arguments Single {V} _.
 Arguments Series {V} _ _ _.
